@@ -477,15 +477,36 @@ def _check_recv(repo, rep, tr, fn, fq, n_param):
         remaining = {f"{n_param} - {cnt}"}
         reads = [c for c in ast.walk(w) if isinstance(c, ast.Call) and isinstance(c.func, ast.Attribute) and c.func.attr in ("recv", "recv_into") and norm(c.func.value) in ("self.socket", "sock")]
         # one socket read on every way through one iteration (two sites in the two branches of an if are one read)
-        from ..cfg import path_summaries as _paths
-        per_path = set()
-        for ps_ in _paths(fn, body=w.body, may_raise=lambda n_: False):
-            if ps_.raised:
-                continue
-            k_ = sum(1 for st_ in ps_.stmts for c_ in ast.walk(st_) if any(c_ is r_ for r_ in reads))
-            ends_early = any(isinstance(st_, (ast.Return, ast.Break, ast.Continue)) for st_ in ps_.stmts)
-            if not (ends_early and k_ == 0):
-                per_path.add(k_)
+        def _n_reads(node):
+            return sum(1 for c_ in ast.walk(node) if any(c_ is r_ for r_ in reads))
+
+        def _ways(stmts):
+            """{(reads made, leaves the iteration early)} over the ways through a block"""
+            cur = {(0, False)}
+            for st_ in stmts:
+                nxt_ = set()
+                for k_, done_ in cur:
+                    if done_:
+                        nxt_.add((k_, True))
+                        continue
+                    if isinstance(st_, ast.If):
+                        t_ = _n_reads(st_.test)
+                        for b_ in (st_.body, st_.orelse):
+                            for k2, d2 in _ways(b_):
+                                nxt_.add((k_ + t_ + k2, d2))
+                    elif isinstance(st_, (ast.With, ast.Try)):
+                        blocks = [st_.body] if isinstance(st_, ast.With) else [st_.body + st_.orelse + st_.finalbody] + [h_.body + st_.finalbody for h_ in st_.handlers]
+                        for b_ in blocks:
+                            for k2, d2 in _ways(b_):
+                                nxt_.add((k_ + k2, d2))
+                    elif isinstance(st_, (ast.Return, ast.Break, ast.Continue, ast.Raise)):
+                        nxt_.add((k_ + _n_reads(st_), True))
+                    else:
+                        nxt_.add((k_ + _n_reads(st_), False))
+                cur = nxt_
+            return cur
+
+        per_path = {k_ for k_, done_ in _ways(w.body) if not (done_ and k_ == 0)}
         rep.check(per_path <= {1} and reads, "recv-exact", fq, f"socket reads per way through the loop at line {w.lineno}: {sorted(per_path)}", "one socket read per iteration (the count is re-tested before each)", mod=tr, node=w)
         # names that hold the remaining count
         for s_ in ast.walk(w):
